@@ -55,6 +55,7 @@ Step_C08 == [][P!F_C08_step(S.cfg, S, S') = {}]_S
 Step_C09 == [][P!F_C09_step(S.cfg, S, S', S.rt) = {}]_S
 Inv_C18 == P!F_C18_inv(S.cfg, S, S.dg) = {}
 Step_C18 == [][P!F_C18_step(S.cfg, S, S') = {}]_S
+Step_C20 == [][P!F_C20_step(S.cfg, S, S') = {}]_S
 Inv_C17 == P!F_C17_inv(S.cfg, S, S.gb) = {}
 Step_C17 == [][P!F_C17_step(S.cfg, S, S') = {}]_S
 Step_C10 == [][P!F_C10_step(S.cfg, S, S') = {}]_S
